@@ -22,3 +22,6 @@ for kind in ("file-ops", "metadata-only", "empty"):
 register(Unit(P, "RELEASE/MetadataManager.commit-local", cp.h_mm_commit("local"), functions=[f"{cp.MM}:MetadataManager.commit"], replay=cp._replay_mm_commit))
 from contracts import C16_durable as _c16
 register(Unit(P, "ATOMIC/LocalStorageBackend.write_file-faults", _c16.h_write_file(True), functions=["storage_backend:LocalStorageBackend.write_file"], replay=_c16._replay_write_file))
+
+from contracts import helpers as _HLP  # noqa: E402
+_HLP.register_under("C04", ["HELPER/_deep_copy_metadata"])
